@@ -429,7 +429,7 @@ Definition drop_sel (fl : flagmap) (k : dropkind) (addr : N) (e : entry) : bool 
   match k with
   | DKAll => true
   | DKStale => is_stale fl e
-  | DKLlgr => is_llgr_stale fl e
+  | DKLlgr => src_llgr fl e       (* the source's LLGR mark; the LLGR_STALE community alone does not qualify *)
   | DKNoLlgr => a_nollgr (e_attr e)
   end.
 
@@ -534,25 +534,49 @@ Definition mark_dest (llgr : bool) (addr : N) (fl : flagmap) (d : dest) : flagma
 Definition restale_flags (llgr : bool) (addr : N) (ds : list (N * dest)) (fl : flagmap) : flagmap :=
   fold_left (fun f nd => mark_dest llgr addr f (snd nd)) ds fl.
 
-Definition restale_dest (fl' : flagmap) (addr net : N) (d : dest) : dest * option change :=
-  if negb (existsb (from_addr addr) (d_entries d)) then (d, None)
+Fixpoint indexed_from {A} (k : nat) (l : list A) : list (nat * A) :=
+  match l with
+  | [] => []
+  | x :: r => (k, x) :: indexed_from (S k) r
+  end.
+
+(* restale: one change per destination.  restale_llgr: marking changes what is
+   exported for every eligible path of the peer (LLGR_STALE is added at export
+   time) even when its rank does not move, so each of them is reported as
+   replaced (one change per path) and a marked best path as changed. *)
+Definition restale_dest (fl' : flagmap) (llgr : bool) (addr net : N) (d : dest) : dest * list change :=
+  if negb (existsb (from_addr addr) (d_entries d)) then (d, [])
   else
     let old_best := best_lpid d in
     let any_unf := existsb (fun e => from_addr addr e && negb (e_filtered e)) (d_entries d) in
     let d' := with_entries d (isort (cmp_for fl' net) (d_entries d)) (d_next_pid d) in
-    let best_changed := negb (oNeqb old_best (best_lpid d')) in
+    let moved := negb (oNeqb old_best (best_lpid d')) in
+    let marked := if llgr then map e_lpid (filter (from_addr addr) (elig_list d')) else [] in
+    let best_marked :=
+      match best_lpid d', marked with
+      | Some b, m :: _ => m =? b
+      | _, _ => false
+      end in
+    let best_changed := moved || best_marked in
     (d', if best_changed || any_unf
-         then Some {| c_net := net; c_dest_id := d_id d; c_best_changed := best_changed;
-                      c_any_changed := any_unf; c_replaced := None; c_paths := elig_list d' |}
-         else None).
+         then match marked with
+              | [] => [{| c_net := net; c_dest_id := d_id d; c_best_changed := best_changed;
+                          c_any_changed := any_unf; c_replaced := None; c_paths := elig_list d' |}]
+              | _ => map (fun kp => {| c_net := net; c_dest_id := d_id d;
+                                       c_best_changed := best_changed && Nat.eqb (fst kp) 0;
+                                       c_any_changed := true; c_replaced := Some (snd kp);
+                                       c_paths := elig_list d' |})
+                         (indexed_from 0 marked)
+              end
+         else []).
 
 Definition restale_op (t : table) (llgr : bool) (addr : N) : table * list change :=
   let fl' := restale_flags llgr addr (t_dests t) (t_flags t) in
-  let rs := map (fun nd => (fst nd, restale_dest fl' addr (fst nd) (snd nd))) (t_dests t) in
+  let rs := map (fun nd => (fst nd, restale_dest fl' llgr addr (fst nd) (snd nd))) (t_dests t) in
   ({| t_deferring := t_deferring t; t_dests := map (fun x => (fst x, fst (snd x))) rs;
       t_used := t_used t; t_stats := t_stats t;
       t_flags := fl'; t_ctrs := t_ctrs t; t_shard := t_shard t; t_bad := t_bad t |},
-   flat_map (fun x => match snd (snd x) with Some c => [c] | None => [] end) rs).
+   flat_map (fun x => snd (snd x)) rs).
 
 (* ---------------------------------------------------- update_nexthop_validity *)
 
